@@ -69,11 +69,11 @@ func (s *sx) access() {
 }
 
 type stmtForm struct {
-	Name   string
-	Slots  []ty
-	Sites  int    // number of bounds-check sites (2^Sites alternatives are accepted)
-	Decl   string // declaration text; %[1]s = case function name, %[2]s.. = slots
-	Pred   func(s *sx) string
+	Name  string
+	Slots []ty
+	Sites int    // number of bounds-check sites (2^Sites alternatives are accepted)
+	Decl  string // declaration text; %[1]s = case function name, %[2]s.. = slots
+	Pred  func(s *sx) string
 }
 
 func arr2String(a [][]int64) string {
